@@ -23,6 +23,7 @@ open CwMt CwMt.Route CwMt.Driver
 
 inductive Mode where
   | record | acc | fail
+  | cacc   -- the crate's own always-accepting modules (`AcceptingModule`, `StargateAccepting`): like `acc`, but a stargate query is answered with `{}`
   deriving DecidableEq, Repr
 
 /-- a component handed to a `with_*` step by the harness -/
@@ -171,6 +172,7 @@ def dispatch (app : RouteApp) (t : MatchTable) (parts : Kind → Nat) (c : Call)
           if isQuery then (.ok (some (UInt8.ofNat tag :: c.payload)), store, [⟨slot, tag, entryName meth, sender, payload⟩])
           else (.ok none, bump store slot, [⟨slot, tag, entryName meth, sender, payload⟩])
         | .acc => (.ok (if isQuery then some [] else none), store, [])
+        | .cacc => (.ok (if meth == .query_stargate then some [0x7b, 0x7d] else if isQuery then some [] else none), store, [])
         | .fail => (.err, store, [])
       | .const _ => (defaultAnswer (fieldOfMod m) meth, store, [])
       | _ => (.unknown, store, [])
@@ -389,8 +391,13 @@ def knownOps : List String :=
 
 def stepRoute (st : RouteState) (toks : List String) : RouteState × String :=
   match toks with
-  | "build" :: steps =>
-    match steps.mapM parseStep with
+  | "build" :: steps0 =>
+    -- `crate-acc` (only as the last step): the crate's own accepting modules in the ibc, gov and stargate slots
+    let crate := steps0.getLast? == some "crate-acc"
+    let steps := if crate then steps0.dropLast else steps0
+    let extra : List (BStep × Comp) := if crate then
+        [(.with_ibc, Comp.module "ibc" .cacc 0), (.with_gov, Comp.module "gov" .cacc 0), (.with_stargate, Comp.module "stargate" .cacc 0)] else []
+    match (steps.mapM parseStep).map (· ++ extra) with
     | none => (st, "bad-op")
     | some l =>
       match doBuild l with
